@@ -54,6 +54,7 @@ func (s *Server) aofshrink() {
 				if keysdone {
 					break
 				}
+				verifPoint("shrink.betweenKeyBatches")
 				keysdone = true
 				func() {
 					s.mu.Lock()
@@ -149,6 +150,7 @@ func (s *Server) aofshrink() {
 					)
 
 				}()
+				verifPoint("shrink.betweenIdBatches")
 				if len(aofbuf) > maxchunk {
 					if _, err := f.Write(aofbuf); err != nil {
 						return err
@@ -222,6 +224,7 @@ func (s *Server) aofshrink() {
 			return err
 		}
 
+		verifPoint("shrink.beforeFinal")
 		// finally grab any new data that may have been written since
 		// the aofshrink has started and swap out the files.
 		return func() error {
@@ -263,6 +266,7 @@ func (s *Server) aofshrink() {
 			if err := f.Sync(); err != nil {
 				return err
 			}
+			verifPoint("shrink.afterAppendLog")
 			// we now have a shrunken aof file that is fully in-sync with
 			// the current dataset. let's swap out the on disk files and
 			// point to the new file.
@@ -275,12 +279,15 @@ func (s *Server) aofshrink() {
 			if err := f.Close(); err != nil {
 				log.Fatalf("shrink new aof close fatal operation: %v", err)
 			}
+			verifPoint("shrink.afterCloseOld")
 			if err := os.Rename(s.opts.AppendFileName, s.opts.AppendFileName+"-bak"); err != nil {
 				log.Fatalf("shrink backup fatal operation: %v", err)
 			}
+			verifPoint("shrink.afterRenameBak")
 			if err := os.Rename(s.opts.AppendFileName+"-shrink", s.opts.AppendFileName); err != nil {
 				log.Fatalf("shrink rename fatal operation: %v", err)
 			}
+			verifPoint("shrink.afterRenameNew")
 			s.aof, err = os.OpenFile(s.opts.AppendFileName, os.O_CREATE|os.O_RDWR, 0600)
 			if err != nil {
 				log.Fatalf("shrink openfile fatal operation: %v", err)
@@ -291,8 +298,10 @@ func (s *Server) aofshrink() {
 				log.Fatalf("shrink seek end fatal operation: %v", err)
 			}
 			s.aofsz = int(n)
+			verifPoint("shrink.afterReopen")
 
 			os.Remove(s.opts.AppendFileName + "-bak") // ignore error
+			verifPoint("shrink.afterRemoveBak")
 
 			return nil
 		}()
